@@ -256,6 +256,7 @@ def run(P, R, tier):
     replacegrow_rule(P, R)
     phaselookup_rule(P, R)
     shiftdir_rule(P, R)
+    errview_rule(P, R)
     stdthrow_census(P, R, reach)
 
 
@@ -1905,3 +1906,26 @@ def shiftdir_rule(P, R):
         else:
             R.violation(RULE, inst, "ishift is scanned from the input (line %d) without a range test: `-shifts n 2` makes the shift loop `i != first_c - ishift; i -= ishift` of "
                         "transport() (line %d) run past its end value - the call does not return" % (c[1], neq[0][1]), file=f["file"], line=c[1], function=f["q"])
+
+
+def errview_rule(P, R):
+    """"the error and warning strings describe that call only": the strings and their line views are views of the two reporters, refreshed by
+    update_errors after every change of a reporter and at the end of every call.  Other functions (UnLoadDatabase) empty the cached strings
+    without touching the line vectors, so update_errors must rebuild both views UNCONDITIONALLY - `<X>Lines.clear()` and the assignment of
+    `<X>String` from the reporter as direct statements of the function.  A refresh that is skipped when the text "has not changed" compares
+    "" with "" after a load and leaves the lines of the failed call before it."""
+    RULE = "C08.errview"
+    R.rule(RULE, "update_errors clears the error / warning line views and re-reads the reporter text unconditionally", minimum=2)
+    f = P.one("IPhreeqc::update_errors")
+    direct = [st for st in f["body"][2] if T.is_node(st)]
+    for x in ("Error", "Warning"):
+        cleared = any(st[0] == "Call" and T.callee_name(st) == "clear" and T.call_obj(st) is not None and (x + "Lines") in T.text(T.call_obj(st)) for st in direct)
+        assigned = any((st[0] == "Bin" and st[2] == "=" and (x + "String") in T.text(st[3])) or
+                       (st[0] == "Call" and T.callee_name(st) == "operator=" and st[4] and (x + "String") in T.text(st[4][0])) for st in direct)
+        if cleared and assigned:
+            R.ok(RULE, x, "%sLines.clear() and %sString = reporter text are direct statements" % (x, x))
+        else:
+            R.violation(RULE, x, "update_errors rebuilds the %s views only under a condition (%s): after a function that emptied the cached string (UnLoadDatabase) the lines of "
+                        "an earlier, failed call stay visible although the string is empty" % (x.lower(), "the line vector is not cleared unconditionally" if not cleared
+                                                                                              else "the string is not re-read unconditionally"),
+                        file=f["file"], line=f["line"], function=f["q"])
